@@ -55,6 +55,8 @@ import shutil as _shutil
 def _prep(sc, r):
     """Observable events with projections, in the alphabet of Cache.tla; None if out of the model's scope."""
     loops = [ls['name'] for ls in sc['loops']]
+    if any(ls.get('life') == 'early_resume' for ls in sc['loops']):
+        return None          # (Cache.tla does not model a stopped loop being run again)
     callers = {}
     for ls in sc['loops']:
         for cs in ls['callers']:
